@@ -236,4 +236,11 @@ func TestVerifC15Consumers(t *testing.T) {
 		emit(line)
 		_ = allClean
 	}
+	// the model ties: small concrete replies, what the transport gets and what is sealed computed by C15.Cache
+	for c := 0; c < 10+n/15; c++ {
+		vC15ReplyModelCase(emit, r)
+	}
+	for c := 0; c < 8+n/30; c++ {
+		vC15FingerprintModelCase(emit, r)
+	}
 }
